@@ -173,5 +173,10 @@ func (t *table[E]) resultsTable() [][]frontend.Variable {
 }
 
 func (t *table[E]) commit(api frontend.API) error {
+	if len(t.results) == 0 {
+		// a table that is never queried has nothing to prove (and the multiplicity hint
+		// refuses an argument without queries)
+		return nil
+	}
 	return logderivarg.Build(api, t.entryTable(), t.resultsTable())
 }
